@@ -81,6 +81,8 @@ fn common_events() -> Vec<Ev> {
         "50", "50 DATA 33,44", "15 PRINT \"e\";", "IF 1 THEN PRINT (((1/0)))", "25 PRINT \"x\";: DATA 7",
         // moves the generator away from its initial state
         "Y=RND(1)",
+        // a line in front of the line that was the first one so far
+        "5 PRINT \"f\";",
     ]
     .iter()
     .map(|l| Ev::Line(l.to_string()))
@@ -96,7 +98,12 @@ fn common_events() -> Vec<Ev> {
 /// Statements that fail half way (a READ refused for its target, for the item's type, for want of
 /// items): used by the unmerged pass only, where what they leave behind cannot be merged away.
 fn residue_events() -> Vec<Ev> {
-    ["READ A(0-1)", "25 DATA \"s\"", "READ Q,Q,Q", "READ Q"].iter().map(|l| Ev::Line(l.to_string())).collect()
+    let mut v: Vec<Ev> = ["READ A(0-1)", "25 DATA \"s\"", "READ Q,Q,Q", "READ Q"].iter().map(|l| Ev::Line(l.to_string())).collect();
+    // whole runs as one event (a run that defines a function, a complete RUN): what a statement
+    // typed after them leaves behind is then within reach of the short unmerged histories
+    v.push(Ev::LineToIdle("GOTO 900".into()));
+    v.push(Ev::LineToIdle("RUN".into()));
+    v
 }
 
 /// Spellings of the command (text after the word is ignored by the command processor).
